@@ -59,18 +59,34 @@ void FeatureChecker::visitEdge(edge_t& edge)
     visitGuard(edge.guard);
 }
 
-void FeatureChecker::visitGuard(expression_t& guard)
+/** True if some comparison inside the expression relates a clock to a floating point value. */
+static bool comparesClockWithFloatingPoint(const expression_t& e)
 {
-    switch (guard.get_kind()) {
+    if (e.empty())
+        return false;
+    switch (e.get_kind()) {
     case Constants::LT:
     case Constants::LE:
     case Constants::EQ:
-        for (size_t i = 0; i < guard.get_size(); ++i) {
-            if (guard.get(i).uses_fp())
-                supported_methods.symbolic = false;
-        }
+    case Constants::NEQ:
+    case Constants::GE:
+    case Constants::GT:
+        if ((e.get(0).uses_clock() && e.get(1).uses_fp()) || (e.get(1).uses_clock() && e.get(0).uses_fp()))
+            return true;
+        break;
     default: break;
     }
+    for (size_t i = 0; i < e.get_size(); ++i) {
+        if (comparesClockWithFloatingPoint(e.get(i)))
+            return true;
+    }
+    return false;
+}
+
+void FeatureChecker::visitGuard(expression_t& guard)
+{
+    if (comparesClockWithFloatingPoint(guard))
+        supported_methods.symbolic = false;
 }
 
 void FeatureChecker::visitAssignment(expression_t& ass)
@@ -93,7 +109,7 @@ void FeatureChecker::visitLocation(location_t& location)
     const auto& invariant = location.invariant;
     if (invariant.empty())
         return;
-    if (isRateDisallowedInSymbolic(invariant))
+    if (isRateDisallowedInSymbolic(invariant) || comparesClockWithFloatingPoint(invariant))
         supported_methods.symbolic = false;
 }
 
